@@ -910,6 +910,13 @@ class RTCSctpTransport(AsyncIOEventEmitter):
             ochunk._retransmit = False
             if ochunk.flags & SCTP_DATA_LAST_FRAG:
                 break
+        else:
+            # the end of the message has not been transmitted yet,
+            # abandon it too so that it is never sent
+            for ochunk in self._outbound_queue:
+                ochunk._abandoned = True
+                if ochunk.flags & SCTP_DATA_LAST_FRAG:
+                    break
 
         return True
 
@@ -1578,6 +1585,9 @@ class RTCSctpTransport(AsyncIOEventEmitter):
         while self._outbound_queue and self._flight_size < cwnd:
             chunk = self._outbound_queue.popleft()
             self._sent_queue.append(chunk)
+            if chunk._abandoned:
+                # never transmitted, FORWARD TSN will skip it
+                continue
             self._flight_size_increase(chunk)
 
             # update counters
@@ -1616,8 +1626,17 @@ class RTCSctpTransport(AsyncIOEventEmitter):
 
         done = 0
         streams = {}
-        while self._sent_queue and self._sent_queue[0]._abandoned:
-            chunk = self._sent_queue.popleft()
+        while True:
+            if self._sent_queue and self._sent_queue[0]._abandoned:
+                chunk = self._sent_queue.popleft()
+            elif (
+                not self._sent_queue
+                and self._outbound_queue
+                and self._outbound_queue[0]._abandoned
+            ):
+                chunk = self._outbound_queue.popleft()
+            else:
+                break
             self._advanced_peer_ack_tsn = chunk.tsn
             done += 1
             if not (chunk.flags & SCTP_DATA_UNORDERED):
